@@ -20,6 +20,7 @@ import (
 	"github.com/transparency-dev/witness/internal/feeder/sumdb"
 	"github.com/transparency-dev/witness/verifmc/ev"
 	"github.com/transparency-dev/witness/verifmc/ref6962"
+	"github.com/transparency-dev/witness/verifmc/stublog"
 	"github.com/transparency-dev/witness/verifmc/uni"
 	"github.com/transparency-dev/witness/verifmc/wh"
 	"golang.org/x/mod/sumdb/tlog"
@@ -80,7 +81,15 @@ func (s *sumdbServer) ReadHashes(idx []int64) ([]tlog.Hash, error) {
 	return out, nil
 }
 
+// RoundTrip answers like net/http's transport in front of a compressing
+// server: plainly, unless the request itself asks for gzip (then net/http
+// hands the compressed bytes to the caller).
 func (s *sumdbServer) RoundTrip(r *http.Request) (*http.Response, error) {
+	resp, err := s.roundTrip(r)
+	return stublog.CompressIfAsked(r, resp), err
+}
+
+func (s *sumdbServer) roundTrip(r *http.Request) (*http.Response, error) {
 	// As net/http's transport: a request whose context has ended fails.
 	if err := r.Context().Err(); err != nil {
 		return nil, err
@@ -106,7 +115,7 @@ func (s *sumdbServer) RoundTrip(r *http.Request) (*http.Response, error) {
 	if s.faultKind != "" && me == s.faultAt {
 		inner := *s
 		inner.faultKind = ""
-		resp, err := (&inner).RoundTrip(r)
+		resp, err := (&inner).roundTrip(r)
 		s.mu.Lock()
 		s.bad = append(s.bad, inner.bad...)
 		s.mu.Unlock()
